@@ -212,6 +212,11 @@ class World:
                 else:
                     if "<PAD:" in content:
                         content = _expand_pads(content)
+                    if "<RELSP" in content:
+                        # a search-path directory named relatively to the directory of the file that mentions it
+                        for j in range(len(search_paths)):
+                            other = os.path.join(self.root, names[j] if names and j < len(names) else f"sp{j}")
+                            content = content.replace(f"<RELSP{j}>", os.path.relpath(other, sp))
                     if "<SP" in content or "<ROOT>" in content:
                         for j in range(len(search_paths)):
                             content = content.replace(f"<SP{j}>", os.path.join(self.root, names[j] if names and j < len(names) else f"sp{j}"))
